@@ -261,6 +261,13 @@ def gen_text(tier):
                         continue
                     txt = (s + " ${t0} " + s) if ref else s
                     yield {"wb": text_form(chn, txt), "meta": {"gen": "text", "ch": chn, "ref": ref}, "id": "data"}
+    # characters that are not XML 1.0 Chars (C0 controls, U+FFFE/FFFF) and neighbours that are (DEL, NEL, tab, U+FFFD)
+    for cp in (0x00, 0x01, 0x08, 0x0B, 0x0C, 0x1F, 0x7F, 0x85, 0x9F, 0xFFFD, 0xFFFE, 0xFFFF, 0x09):
+        for chn in CHANNELS:
+            meta = {"gen": "text", "ch": chn, "ref": False}
+            if cp in (0x00, 0x01, 0x08, 0x0B, 0x0C, 0x1F, 0xFFFE, 0xFFFF):
+                meta["name_channel"] = "illegal-xml-char"
+            yield {"wb": text_form(chn, f"a{chr(cp)}b"), "meta": meta, "id": "data"}
     # cell text with line breaks / tabs next to quotes and markup characters (multi-line messages and labels)
     for s in ['a\n"b', '"\n', "'\n\"", "\n<", "x\ty\"z", "a\r\nb\"", "&\n\"<\">"]:
         for chn in CHANNELS:
